@@ -16,6 +16,7 @@ class VariableBoundExprMaxPropagator(VariableBoundMaxPropagator):
         self.max_e = max_e
 
     def max(self):
-        return int(self.max_e.val())
+        v = self.max_e.val()
+        return int(v) if v is not None else None
     
     
